@@ -35,6 +35,7 @@ from hypothesis import strategies as st
 from .. import strategies as S
 from ..common import permuted
 from ..engine import Clause, require
+from ..common import with_history  # noqa: E402
 
 ASSUMPTIONS = [
     "oracle = the definitions evaluated by exhaustive enumeration of all hyperedges of size "
@@ -432,6 +433,7 @@ def fit_cases(draw, ascent=False, supplies=("u", "w", "u", "w", "both", "none"),
     return case
 
 
+@with_history
 def build_data(case):
     """The hypergraph of the case, its node->row table (public get_mapping) and the
     data as {sorted row-index tuple: count}."""
